@@ -598,6 +598,14 @@ Qed.
 Lemma env_overrides_thissystem backends fl v : backends_is_thissystem backends fl (Some v) = negb (v =? 0)%Z.
 Proof. reflexivity. Qed.
 
+(* the hooks a load installs depend on that load's configuration only, not on earlier (failed) loads of the handle *)
+Lemma thissystem_last_load_only history c :
+  thissystem_after (history ++ [c]) = backends_is_thissystem (lc_backends c) (lc_flag c) (lc_env c).
+Proof.
+  unfold thissystem_after. rewrite fold_left_app. cbn [fold_left]. unfold load_step.
+  destruct (backends_is_thissystem _ _ _); [apply orb_true_r|apply andb_false_r].
+Qed.
+
 (* ---------- x86 look_procs against the idealised affinity model ---------- *)
 Lemma bs_inter_subset a b : bs_subset a b = true -> bs_inter a b = a.
 Proof.
